@@ -297,7 +297,23 @@ func (r *Report) Finish(verifDir string, findings []Finding) int {
 				fmt.Printf("UNDECIDED: property=%s %s %s: %s\n", r.Property, o.Rule, o.Construct, o.Detail)
 			}
 		}
-		code = 2
+		// fail closed: an obligation that could not be decided, or a rule that lost its instances, means the property was NOT shown
+		// to hold on this tree. The interface knows two outcomes; this is reported as a violation (kind "undecided"), with the
+		// undecided obligations in the replay file, so that it is neither mistaken for a pass nor for a crashed check.
+		code = 1
+		if viol == 0 {
+			_ = os.MkdirAll(filepath.Join(verifDir, "replay"), 0o755)
+			rp := filepath.Join(verifDir, "replay", r.Property+".json")
+			var und []map[string]string
+			for _, o := range r.Obls {
+				if o.Status == Undecided {
+					und = append(und, map[string]string{"rule": o.Rule, "construct": o.Construct, "detail": o.Detail})
+				}
+			}
+			rb, _ := json.MarshalIndent(map[string]any{"property": r.Property, "tier": r.Tier, "undecided": und, "broken": r.broken}, "", " ")
+			_ = os.WriteFile(rp, rb, 0o644)
+			fmt.Printf("VIOLATION property=%s replay=%s\n", r.Property, rp)
+		}
 	}
 	if viol > 0 {
 		_ = os.MkdirAll(filepath.Join(verifDir, "replay"), 0o755)
